@@ -116,6 +116,41 @@ func cmdReplay(args []string) {
 	}
 }
 
+// scrub replaces JSON nulls (nil values, nil slices and maps) by values TLC's JSON module can read.
+func scrub(v any) any {
+	switch x := v.(type) {
+	case nil:
+		return "nil"
+	case map[string]any:
+		if x == nil {
+			return map[string]any{}
+		}
+		for k, e := range x {
+			x[k] = scrub(e)
+		}
+		return x
+	case []any:
+		if x == nil {
+			return []any{}
+		}
+		for i, e := range x {
+			x[i] = scrub(e)
+		}
+		return x
+	case []M:
+		out := make([]any, len(x))
+		for i, e := range x {
+			out[i] = scrub(e)
+		}
+		return out
+	case []int:
+		if x == nil {
+			return []int{}
+		}
+	}
+	return v
+}
+
 func writeTraces(traces [][]M, out string, shard int) (events, files int) {
 	var w *bufio.Writer
 	var f *os.File
@@ -147,7 +182,7 @@ func writeTraces(traces [][]M, out string, shard int) (events, files int) {
 		}
 		for _, ev := range tr {
 			ev["script"] = i
-			b, err := json.Marshal(ev)
+			b, err := json.Marshal(scrub(ev))
 			if err != nil {
 				b, _ = json.Marshal(M{"ev": "harnessError", "text": err.Error(), "script": i})
 			}
